@@ -194,6 +194,17 @@ def check_text(text, acc, want_calls=False):
                           'source text %r names an existing path: TokenScanner opened it as a file: %s: %s' % (text, type(e).__name__, e))
         else:
             acc.violation('foreign-exception', case, 'stream raised %s: %s' % (type(e).__name__, e))
+    # 4. the stream API with its parser switched to stop-at-first-error (rejected sources: the other exception class travels through enum)
+    if outcome and outcome.startswith('errors') and not known_path:
+        ge = GherkinEvents(GherkinEvents.Options(print_source=True, print_ast=True, print_pickles=True))
+        ge.parser.stop_at_first_error = True
+        try:
+            evs = list(ge.enum({'source': {'uri': 'u', 'data': text, 'mediaType': 'text/x.cucumber.gherkin+plain'}}))
+            kinds = [next(iter(e)) for e in evs if isinstance(e, dict) and len(e) == 1]
+            if kinds != ['parseError'] or len(evs) != 1:
+                acc.violation('stream-vs-parse', case, 'stream whose parser stops at the first error yielded %s for a rejected source (expected one parseError envelope)' % (kinds or evs))
+        except Exception as e:  # noqa: BLE001
+            acc.violation('foreign-exception', case, 'stream whose parser stops at the first error raised %s: %s' % (type(e).__name__, e))
     return m.calls
 
 
